@@ -510,3 +510,5 @@ V("D18/D19 regression seen by interpretation: Tensor arguments skip constructor 
 V("collection __getitem__ hands every tensor result to the element class", "C04", BASE, "        if result.free_indices > 0:\n            return TensorCollection(result, copy=False)\n\n        return self._element_class(result, copy=False)",
   "        return self._element_class(result, copy=False)", "E16", "Collection")
 V("QuadricCollection[i] forgets is_dual (E16 view)", "C04", CURVE, "        return QuadricCollection.from_tensor(result, is_dual=self.is_dual)", "        return QuadricCollection.from_tensor(result)", "E16", "QuadricCollection")
+V("Tensor.__init__ takes covariant= positions as absolute axis numbers", "C19", BASE, "                self._covariant_indices.add(n_free_indices + idx)", "                self._covariant_indices.add(idx)", "E15", "Tensor.__init__")
+V("Tensor.__init__ leaves the collection axes among the contravariant indices", "C19", BASE, "        self._contravariant_indices = set(range(self.rank)) - self._covariant_indices - free_indices", "        self._contravariant_indices = set(range(self.rank)) - self._covariant_indices", "E15", "Tensor.__init__")
